@@ -140,7 +140,7 @@ def compare_nodes(ctx, a, c, deep, via, label, witness):
     for fname, get in FLAGS:
       cnt['flag_nodes_compared'] += 1
       if get(x) != get(y):
-        ctx.violation('flag-differs', f'{fname}/{kind(x)}',
+        ctx.violation('flag-differs', f'{fname}/{kind(x)}{getattr(ctx, "scope_tag", "")}',
                       f'{label} via {via} ({mode}) at {keys}: {fname} {get(x)} -> {get(y)}',
                       witness)
     if isinstance(x, (pg.Dict, pg.List)):
@@ -160,6 +160,40 @@ def compare_nodes(ctx, a, c, deep, via, label, witness):
                         f'{label} via {via}: non-symbolic leaf at {keys + [k]} was copied', witness)
 
 
+CLONE_SCOPES = [
+    ('as_sealed', pg.as_sealed, [True, False]),
+    ('allow_partial', pg.allow_partial, [True, False]),
+    ('allow_writable_accessors', pg.allow_writable_accessors, [True, False]),
+    ('notify_on_change', pg.notify_on_change, [False]),
+]
+
+
+def clone_in_scopes(rng, fn, a):
+  """Clones inside 0-2 scoped overrides; the scope governs what may be done
+  while it is active, it is not a property of the values created in it, so the
+  clone's own flags (read after leaving the scopes) must be those of the
+  original."""
+  import contextlib  # pylint: disable=g-import-not-at-top
+  chosen = []
+  if rng.random() < 0.35:
+    for name, cm, vals in rng.sample(CLONE_SCOPES, rng.randint(1, 2)):
+      chosen.append((name, cm, rng.choice(vals)))
+  blocking = any((n, v) in (('as_sealed', True), ('allow_writable_accessors', False))
+                 for n, _, v in chosen)
+  with contextlib.ExitStack() as st:
+    for _, cm, val in chosen:
+      st.enter_context(cm(val))
+    try:
+      b = fn(a)
+    except pg.WritePermissionError as e:
+      e.pgverif_blocking_scope = blocking
+      raise
+    except ValueError as e:
+      e.pgverif_blocking_scope = ('allow_partial', False) in [(n, v) for n, _, v in chosen]
+      raise
+  return b, '+'.join(f'{n}({v})' for n, _, v in chosen)
+
+
 def cases(ctx):
   return ctx.params['cases']
 
@@ -174,8 +208,20 @@ def run_case(ctx, i):
   for deep, vias in ((True, DEEP_VIAS), (False, SHALLOW_VIAS)):
     via, fn = rng.choice(vias)
     ctx.label = f'{"deep" if deep else "shallow"}-{via}'
+    scopes = ''
     try:
-      b = fn(a)
+      b, scopes = clone_in_scopes(rng, fn, a)
+    except (pg.WritePermissionError, ValueError) as e:
+      ctx.label = None
+      if getattr(e, 'pgverif_blocking_scope', False):
+        # Whether a copy may be *constructed* while pg.as_sealed(True) /
+        # pg.allow_writable_accessors(False) (write refused) or
+        # pg.allow_partial(False) (partial value refused) is active is left open.
+        c['clone_refused_inside_blocking_scope'] += 1
+        continue
+      ctx.violation('clone-raised', f'{"deep" if deep else "shallow"}/{kind(a)}',
+                    f'{label} via {via}: {type(e).__name__}: {e!s:.300}', witness)
+      continue
     except Exception as e:  # pylint: disable=broad-except
       ctx.label = None
       ctx.violation('clone-raised', f'{"deep" if deep else "shallow"}/{kind(a)}',
@@ -184,6 +230,12 @@ def run_case(ctx, i):
     ctx.label = None
     c['clones_checked'] += 1
     mode = 'deep' if deep else 'shallow'
+    if scopes:
+      c['clones_inside_scopes'] += 1
+      via = f'{via}@{scopes}'
+      ctx.scope_tag = '@scope'
+    else:
+      ctx.scope_tag = ''
     if not pg.eq(a, b) or pg.ne(a, b):
       ctx.violation('not-equal', f'{mode}/{kind(a)}', f'{label} via {via}: clone differs: '
                     f'{js(b)[:300]} vs {snap_a[:300]}', witness)
